@@ -74,6 +74,7 @@ def _explore_shard(args):
         sys.stdout = open(os.devnull, "w")  # the code under check prints diagnostics; workers report through return values
     h = HARNESSES[hname]
     eng = core.Engine(**limits.get("engine", {}))
+    eng.dump_vcs = 2 if os.environ.get("SX_CROSSCHECK") else 0
     max_cex = limits.get("max_cex", 40)
     deadline = limits.get("deadline")
     max_paths = limits.get("shard_paths", 250)
@@ -195,7 +196,7 @@ def _explore_shard(args):
             break
     st["unknown"] += eng.unknowns
     return {
-        "st": st, "cexs": cexs, "sig_count": sig_count, "frontier": frontier, "samples": samples, "unsupported": unsupported, "witness": witness,
+        "st": st, "cexs": cexs, "sig_count": sig_count, "frontier": frontier, "dumped": eng.dumped, "samples": samples, "unsupported": unsupported, "witness": witness,
         "wall": time.time() - t_start, "queries": eng.nq, "solver_s": eng.solver_s, "concretizations": eng.concretizations,
         "fork_sites": sorted(eng.fork_sites.items(), key=lambda kv: -kv[1])[:8],
     }
@@ -207,6 +208,8 @@ def _merge(tot, r):
     for c in r["cexs"]:
         if sum(1 for x in tot["cexs"] if x["sig"] == c["sig"]) < 4:
             tot["cexs"].append(c)
+    if r.get("dumped") and len(tot.setdefault("dumped", [])) < 12:
+        tot["dumped"].extend(r["dumped"][: 12 - len(tot["dumped"])])
     for k, v in r.get("sig_count", {}).items():
         tot["sig_count"][k] = tot["sig_count"].get(k, 0) + v
     tot["samples"].extend(r["samples"][: max(0, 3 - len(tot["samples"]))])
@@ -265,6 +268,35 @@ def explore(h, p, limits=None, jobs=None):
     tot["wall_s"] = time.time() - t0
     tot["shards"] = shards
     return tot
+
+
+def crosscheck(dumps, timeout=60):
+    """re-decide dumped VCs (each must be unsat) with the z3 4.8.12 and cvc5 binaries; -> dict of counts"""
+    import tempfile
+
+    res = {"vcs": len(dumps), "z3_binary_unsat": 0, "cvc5_unsat": 0, "disagreements": [], "errors": 0}
+    for i, text in enumerate(dumps):
+        with tempfile.NamedTemporaryFile("w", suffix=".smt2", delete=False, dir=ROOT) as f:
+            f.write(text)
+            path = f.name
+        try:
+            for name, cmd in (("z3_binary_unsat", ["/usr/bin/z3", "-T:%d" % timeout, path]), ("cvc5_unsat", ["cvc5", "--tlimit=%d" % (timeout * 1000), path])):
+                try:
+                    out = subprocess.run(cmd, capture_output=True, text=True, timeout=timeout + 10).stdout.strip().splitlines()
+                except Exception as e:  # pragma: no cover
+                    out = ["error %r" % (e,)]
+                first = out[0] if out else "no output"
+                if any("(error" in ln for ln in out):
+                    res["errors"] += 1
+                elif first == "unsat":
+                    res[name] += 1
+                elif first == "sat":
+                    res["disagreements"].append("%s says sat on VC %d" % (cmd[0], i))
+                else:
+                    res["errors"] += 1
+        finally:
+            os.unlink(path)
+    return res
 
 
 def explore_many(h, plist, jobs=None):
